@@ -62,6 +62,17 @@ func statusRank(s string) int {
 }
 
 // RunCheck runs the check of one property and returns the process exit code.
+// inScope: the function key (e.g. "(*github.com/IrineSistiana/mosdns/v5/pkg/x.T).M" or
+// "github.com/IrineSistiana/mosdns/v5/pkg/x.F$1") belongs to one of the package prefixes.
+func inScope(prefixes []string, key string) bool {
+	for _, p := range prefixes {
+		if strings.Contains(key, "/mosdns/v5/"+p+".") || strings.Contains(key, "/mosdns/v5/"+p+"/") {
+			return true
+		}
+	}
+	return false
+}
+
 func RunCheck(o CheckOpts) int {
 	t0 := time.Now()
 	outDir := filepath.Join(o.VerifDir, "out", o.Prop)
@@ -81,14 +92,33 @@ func RunCheck(o CheckOpts) int {
 		return failHard(o, evPath, t0, "load", err.Error())
 	}
 	E.Tier = o.Tier
-	// functions under contract for this property
+	// functions under contract for this property: tagged with it, or in one of its scope packages
+	scopes := map[string][]string{}
+	if b, err := os.ReadFile(filepath.Join(o.VerifDir, "spec", "scopes.json")); err == nil {
+		raw := map[string]interface{}{}
+		if json.Unmarshal(b, &raw) == nil {
+			for p, v := range raw {
+				if l, ok := v.([]interface{}); ok {
+					for _, x := range l {
+						if sx, ok := x.(string); ok {
+							scopes[p] = append(scopes[p], sx)
+						}
+					}
+				}
+			}
+		}
+	}
+	E.ScopeAll = len(scopes[o.Prop]) > 0
 	var keys []string
 	for _, k := range E.CS.FuncKeys() {
 		fs := E.CS.Funcs[k]
 		if fs.Trusted || fs.NoBody || fs.IsIface {
 			continue
 		}
-		if !fs.HasTag(o.Prop) {
+		if strings.HasPrefix(k, "fieldfn:") || strings.HasPrefix(k, "paramfn:") || strings.HasPrefix(k, "var:") {
+			continue // contracts of function VALUES: assumed at their call sites, nothing to verify
+		}
+		if !fs.HasTag(o.Prop) && !inScope(scopes[o.Prop], k) {
 			continue
 		}
 		if o.OnlyFunc != "" && !strings.Contains(k, o.OnlyFunc) {
